@@ -5,6 +5,7 @@ import (
 	"crypto/tls"
 	"errors"
 	"net"
+	"os"
 	"sync"
 	"sync/atomic"
 	"time"
@@ -139,6 +140,11 @@ func (s *tcpServer) handleConn(c net.Conn) {
 		c.SetReadDeadline(time.Now().Add(s.idleTimeout))
 		m, n, err := dnsutils.ReadMsgFromTCP(br)
 		if err != nil {
+			if n == 0 && concurrent.Load() > 0 && errors.Is(err, os.ErrDeadlineExceeded) {
+				// Not idle. There are queries in flight, their responses
+				// have to be written to this connection.
+				continue
+			}
 			if n > 0 { // invalid msg
 				s.logger.Warn().
 					Stringer("local", c.LocalAddr()).
